@@ -328,6 +328,20 @@ Proof.
   rewrite A. unfold s0. cbn. unfold up3. rewrite !Z.eqb_refl. reflexivity.
 Qed.
 
+(* without an allowance (a never-granted one reads 0) transferFromShares fails for every amount, zero included *)
+Theorem no_allowance_no_transfer : forall k st caller value v from to sh s,
+  alw s v from caller <= 0 ->
+  entry k st caller value (CTransferFromShares v from to sh) s = Some Err \/
+  entry k st caller value (CTransferFromShares v from to sh) s = None.
+Proof.
+  intros k st caller value v from to sh s A.
+  destruct (entry k st caller value (CTransferFromShares v from to sh) s) as [[s'|]|] eqn:H; auto.
+  exfalso.
+  destruct (entry_ok_inv _ _ _ _ _ _ _ H) as (ro & _ & R).
+  destruct (contract_run_ok _ _ _ _ _ _ R) as (_ & _ & _ & M).
+  cbn [method_run] in M. ifs M. zb. lia.
+Qed.
+
 (* C10, part 2: state-changing methods are refused through STATICCALL, DELEGATECALL and CALLCODE *)
 Theorem readonly_guard : forall k st caller value c s m,
   k <> CALL -> find_method methods c = Some m -> pm_readonly m = false ->
